@@ -63,6 +63,20 @@ static struct stageinfo stages[] = {
 	[LINK]       = {.name = "link"},
 };
 
+/* temporary objects, removed at exit */
+static struct array tmpfiles;
+
+static void
+cleanup(void)
+{
+	char **file;
+
+	if (tmpfiles.len == 0)
+		return;
+	arrayforeach (&tmpfiles, file)
+		unlink(*file);
+}
+
 static void
 usage(const char *fmt, ...)
 {
@@ -234,6 +248,7 @@ buildobj(struct input *input, char *output)
 		if (fd < 0)
 			fatal("mkstemp:");
 		close(fd);
+		arrayaddptr(&tmpfiles, output);
 	} else if (output) {
 		if (strcmp(output, "-") == 0)
 			output = NULL;
@@ -321,10 +336,6 @@ buildexe(struct input *inputs, size_t ninputs, char *output)
 		fatal("%s: spawn \"%s\": %s", s->name, *(char **)s->cmd.val, strerror(errno));
 	if (waitpid(pid, &status, 0) < 0)
 		fatal("waitpid %ju:", (uintmax_t)pid);
-	for (i = 0; i < ninputs; ++i) {
-		if (inputs[i].name && inputs[i].filetype != OBJ)
-			unlink(inputs[i].name);
-	}
 	exit(!succeeded(s->name, pid, status));
 }
 
@@ -378,6 +389,7 @@ main(int argc, char *argv[])
 	size_t i;
 
 	argv0 = progname(argv[0], "cproc");
+	atexit(cleanup);
 
 	arrayaddbuf(&stages[PREPROCESS].cmd, preprocesscmd, sizeof(preprocesscmd));
 	arrayaddptr(&stages[COMPILE].cmd, compilecommand(argv[0]));
